@@ -4,7 +4,7 @@ import os
 import random
 
 from . import core
-from .core import Run
+from .core import Run, log
 
 PLANS = {}
 
@@ -53,7 +53,7 @@ def c07(tier, seed):
 def c08(tier, seed):
     run = Run("C08", tier, seed)
     rng = random.Random(seed)
-    wmax, hmax = (40, 24) if tier == "quick" else (100, 40)
+    wmax, hmax = (40, 24) if tier == "quick" else (160, 64)
     cmds = [{"op": "yuv", "w": 0, "y": [], "cb": [], "cr": []}]
 
     def plane(n, style):
@@ -73,7 +73,7 @@ def c08(tier, seed):
             st = (w * 31 + h * 17 + seed) % 4
             cmds.append({"op": "yuv", "w": w, "y": plane(w * h, st), "cb": plane(cw * ch, (st + (w % 2)) % 4 if st else 0),
                          "cr": plane(cw * ch, st)})
-    for i in range(400 if tier == "quick" else 4000):       # neutral chroma mixed with other values, many group alignments
+    for i in range(400 if tier == "quick" else 40000):       # neutral chroma mixed with other values, many group alignments
         w, h = rng.randrange(1, 33), rng.randrange(1, 9)
         cw, ch = (w + 1) // 2, (h + 1) // 2
         cmds.append({"op": "yuv", "w": w, "y": plane(w * h, rng.randrange(4)), "cb": plane(cw * ch, rng.choice([1, 2])),
@@ -139,7 +139,7 @@ def c09(tier, seed):
         strengths = [1, 4, 9, 12]
         wmax, hmax, sset = 40, 40, [1, 4, 12]
     else:
-        vals = [0, 1, 2, 11, 20, 31, 64, 100, 127, 128, 129, 201, 240, 253, 254, 255]
+        vals = [0, 1, 2, 5, 11, 20, 31, 64, 77, 100, 127, 128, 129, 180, 201, 240, 250, 253, 254, 255]
         strengths = list(range(1, 13))
         wmax, hmax, sset = 40, 40, list(range(1, 13))
     cmds, ntuples = _lane_images(vals, strengths, rng)
@@ -172,7 +172,7 @@ def c16(tier, seed):
     run = Run("C16", tier, seed)
     rng = random.Random(seed)
     run.model_check_sharded("MCDeblock", nshards=16)
-    wmax, hmax = (24, 24) if tier == "quick" else (48, 48)
+    wmax, hmax = (24, 24) if tier == "quick" else (72, 72)
     cmds = [{"op": "strength_table"}]
     for w in range(1, wmax + 1):
         for h in range(0, hmax + 1):
@@ -200,19 +200,19 @@ def c14(tier, seed):
     run.model_check("MCBitReader", "MCBitReader" if tier == "quick" else "MCBitReaderDeep", workers=16, xmx="8g",
                     timeout=1500)
     # (b) spec -> implementation: TLC-generated behaviours replayed into the real H263Reader
-    nseeds, num = (8, 40) if tier == "quick" else (16, 600)
+    nseeds, num = (8, 40) if tier == "quick" else (16, 1500)
     gens = run.generate_sim("MCBitReader", "MCBitReaderSim", num=num, depth=20,
                             seeds=[seed * 1000 + k for k in range(nseeds)])
     # (TLC evaluates the export invariant on every successor it generates, so each simulated trace
     # yields all one-step continuations of its prefix: all are behaviours of the model)
-    cap = 8000 if tier == "quick" else 150000
+    cap = 8000 if tier == "quick" else 400000
     if len(gens) > cap:
         rng.shuffle(gens)
         gens = gens[:cap]
     cmds = [readergen.from_tlc(g) for g in gens]
     n_tlc = len(cmds)
     # (c) implementation -> spec: long seeded random operation sequences
-    nrand, nops, maxb = (2500, 40, 12) if tier == "quick" else (30000, 120, 64)
+    nrand, nops, maxb = (2500, 40, 12) if tier == "quick" else (150000, 120, 64)
     cmds += [readergen.random_seq(rng, rng.randrange(5, nops), rng.choice([3, 4, 6, maxb])) for _ in range(nrand)]
     run.drive_and_validate(cmds, "TraceBitReader", sample=3)
     run.evaluations = sum(len(c["ops"]) for c in cmds)
@@ -261,6 +261,19 @@ class Hist:
 
 def hkey(c):
     return c["h"]
+
+
+def with_parse(cmds):
+    """after every decode of a complete, valid picture also run the public parser functions alone on the same bytes
+    (validated by TraceParse); "nmb" = number of real macroblocks present"""
+    out = []
+    for c in cmds:
+        out.append(c)
+        if c.get("op") == "decode" and "pic" in c and "opaque" not in c and not any(m.get("fault") for m in c["pic"]["mbs"]):
+            real = sum(1 for m in c["pic"]["mbs"] if m["k"] != "stuff")
+            if real == pg.nmb(c["pic"]):
+                out.append({"op": "parse", "d": 0, "h": c["h"], "sor": c["pic"]["hk"] == "sor", "pic": c["pic"], "bytes": c["bytes"], "nmb": real})
+    return out
 
 
 def sor_hdr(rng, pt, tr, w, h, ver, q=None, **kw):
@@ -365,7 +378,7 @@ def c02(tier, seed):
     if tier == "thorough":
         single(pg.intra_picture(rng, pg.header("base", "I", tr=4, q=rng.randrange(1, 32), fmt=2), big=False, shape="sparse"), sor=False)
     # (j) random pictures with dense events and the full level range
-    nrand, maxdim = (120, 64) if tier == "quick" else (1500, 96)
+    nrand, maxdim = (120, 64) if tier == "quick" else (10000, 128)
     for i in range(nrand):
         w, h = rng.randrange(1, maxdim + 1), rng.randrange(1, maxdim + 1)
         single(pg.intra_picture(rng, sor_hdr(rng, "I", i % 256, w, h, i % 2), stuffing=0.05))
@@ -373,8 +386,8 @@ def c02(tier, seed):
         for (w, h, sc) in [(176, 144, 3), (352, 288, 2)]:
             single(pg.intra_picture(rng, sor_hdr(rng, "I", 9, w, h, 1, sc=sc)))
     npics = sum(1 for c in H.cmds if "pic" in c)
-    enc = run.encode(H.cmds)
-    run.drive_and_validate(enc, "TraceDecoder", group=hkey, sample=2)
+    enc = with_parse(run.encode(H.cmds))
+    run.drive_and_validate(enc, "TraceDecoder", group=hkey, sample=2, also=["TraceParse"])
     run.evaluations = npics
     run.nontrivial = npics
     run.notes["intra_pictures"] = npics
@@ -457,7 +470,7 @@ def c03(tier, seed):
             H.decode(pg.inter_picture(rng, sor_hdr(rng, "P", 1, 40, 24, ver), truncate_after=cut, big=False))
             H.decode(pg.inter_picture(rng, sor_hdr(rng, "P", 2, 40, 24, ver), big=False))
     # (d) chains of predicted pictures on larger grids: all differentials uniformly, dense residuals
-    nrand, maxmb = (60, (4, 3)) if tier == "quick" else (700, (6, 5))
+    nrand, maxmb = (60, (4, 3)) if tier == "quick" else (5000, (6, 5))
     for i in range(nrand):
         w = rng.randrange(1, 16 * maxmb[0] + 1)
         h = rng.randrange(1, 16 * maxmb[1] + 1)
@@ -487,8 +500,8 @@ def c03(tier, seed):
                 H.op("newreader")
                 H.decode(pg.inter_picture(rng, pg.header("plus", "P", tr=2, q=rng.randrange(1, 32), w=w, h=h), big=False))
     npics = sum(1 for c in H.cmds if "pic" in c)
-    enc = run.encode(H.cmds)
-    run.drive_and_validate(enc, "TraceDecoder", group=hkey, sample=2)
+    enc = with_parse(run.encode(H.cmds))
+    run.drive_and_validate(enc, "TraceDecoder", group=hkey, sample=2, also=["TraceParse"])
     run.evaluations = npics
     run.nontrivial = npics
     run.notes["pictures"] = npics
@@ -542,7 +555,7 @@ def c15(tier, seed):
             return
         for t in types:
             rec(prefix + [t], n)
-    for n in ([1, 2, 3] if tier == "quick" else [1, 2, 3, 4]):
+    for n in ([1, 2, 3] if tier == "quick" else [1, 2, 3, 4, 5]):
         rec(["I"], n)
     for ts in seqs:
         for (w, h) in sizes:
@@ -565,7 +578,7 @@ def c15(tier, seed):
                             H.op("newreader")
                         H.decode(json.loads(json.dumps(p)))
     # longer random sequences in one reader
-    for i in range(30 if tier == "quick" else 400):
+    for i in range(30 if tier == "quick" else 5000):
         w, h = rng.choice([(16, 16), (17, 3), (33, 16), (48, 32), (5, 5)])
         ver = rng.randrange(2)
         H.new()
@@ -646,8 +659,8 @@ def c06(tier, seed):
     thorough = tier == "thorough"
     cmds = hdrgen.sweeps(rng, thorough)
     n_sweep = len(cmds)
-    cmds += hdrgen.inheritance(rng, 600 if not thorough else 6000)
-    cmds += hdrgen.randoms(rng, 4000 if not thorough else 60000)
+    cmds += hdrgen.inheritance(rng, 600 if not thorough else 60000)
+    cmds += hdrgen.randoms(rng, 4000 if not thorough else 400000)
     enc = encode_headers(run, cmds)
     run.drive_and_validate(enc, "TraceHeader", sample=3, stat_fn=header_stat)
     # a decoded picture reports the header it was decoded from and has exactly its width and height
@@ -828,7 +841,7 @@ def c12(tier, seed):
     for mbw in (1, 2, 3, 4):
         for mb in range(0, 3 * mbw):
             for blk in range(4):
-                for rep in range(6 if tier == "quick" else 60):
+                for rep in range(6 if tier == "quick" else 400):
                     mvs = []
                     for i in range(mb):
                         kind = rng.choice(["inter", "4v", "zero"])
@@ -842,7 +855,7 @@ def c12(tier, seed):
     run.drive_and_validate(hook, "TraceRecon", sample=2)
     # picture route: every macroblock position of a grid reached by chains of uniformly drawn differentials
     H = Hist()
-    for i in range(40 if tier == "quick" else 600):
+    for i in range(40 if tier == "quick" else 4000):
         w, h = rng.choice([(48, 48), (16, 64), (64, 16), (33, 33), (80, 32)])
         ver = i % 2
         H.new()
@@ -877,7 +890,7 @@ def c10(tier, seed):
     rng = random.Random(seed)
     run.model_check("MCTables", workers=4)       # cosine table, basis orthogonality
     cmds = []
-    seeds = [1] if tier == "quick" else [1, 7, 1234567, 99991]
+    seeds = [1] if tier == "quick" else [1, 7, 1234567, 99991, 2, 3, 5, 11, 13, 424242, 31337, 65537]
     chunk = 125
     for sd in seeds:
         for (L, Hh) in [(256, 255), (5, 5), (300, 300)]:
@@ -892,7 +905,7 @@ def c10(tier, seed):
     dcs = list(range(-2048, 2048)) if tier == "thorough" else sorted(set(list(range(-2048, 2048, 17)) + [-2048, -1, 1, 2047, 8, 1024, 2040, -8]))
     for i in range(0, len(dcs), 128):
         cmds.append({"op": "idct", "set": "dc-only", "blocks": [{"k": "dc", "c": [v] + [0] * 63} for v in dcs[i:i + 128] if v != 0]})
-    nshape = 2000 if tier == "quick" else 100000
+    nshape = 2000 if tier == "quick" else 300000
     for kind in ("horiz", "vert"):
         for i in range(0, nshape, 100):
             blocks = []
@@ -914,7 +927,7 @@ def c10(tier, seed):
     pat_blocks = {"horiz": [], "vert": [], "full": []}
     for pat in range(1, 256):
         idx = [k for k in range(8) if (pat >> k) & 1]
-        for rep in range(2 if tier == "quick" else 8):
+        for rep in range(2 if tier == "quick" else 40):
             c = [0] * 64
             for k in idx:
                 c[k] = amps()
@@ -1103,7 +1116,7 @@ def c17(tier, seed):
         cmds.append({"op": "threads", "insts": [inst_cmds(pi, 0), inst_cmds(pi, 1), inst_cmds(pi, 2)], "order": dorder, "single": True,
                      "groups": [[0, 1]], "mode": "single-thread", "h": len(cmds)})
     # (c) free-running threads: 16 instances, replicas of 4 histories, repeated
-    for rep in range(12 if tier == "quick" else 200):
+    for rep in range(12 if tier == "quick" else 1000):
         pi = rep % len(pools)
         insts = [inst_cmds(pi, (k % 4) if (k % 4) < 3 else 0, maxread=(k // 4) % 4, split=(k % 8 == 3)) for k in range(16)]
         groups = [[k for k in range(16) if (k % 4 if k % 4 < 3 else 0) == gsel] for gsel in range(3)]
@@ -1137,7 +1150,7 @@ def c13(tier, seed):
     if tier == "quick":      # every width and every height, all small sizes, and a pseudo-random half of the rest
         sizes = [(w, h) for (w, h) in sizes if w <= 12 or h <= 12 or (w * 7 + h * 13 + seed) % 4 == 0]
     else:
-        sizes = [(w, h) for (w, h) in sizes if w <= 24 or h <= 24 or (w * 7 + h * 13 + seed) % 5 == 0]
+        sizes = [(w, h) for (w, h) in sizes if w <= 24 or h <= 24 or (w * 7 + h * 13 + seed) % 2 == 0]
     q = 0
     for (w, h) in sizes:
         q = q % 31 + 1
@@ -1203,7 +1216,7 @@ def c01(tier, seed):
     rng = random.Random(seed)
     run.model_check("MCDecoder", "MCDecoder", workers=8, xmx="4g")
     run.model_check("MbLoop", "MbLoop", workers=4)      # the macroblock loop terminates: measure decreases, <>returns
-    rounds = 1 if tier == "quick" else 30
+    rounds = 1 if tier == "quick" else 100
     ncalls = [0]
     nhist = 0
     distinct = set()
@@ -1402,7 +1415,7 @@ def c05(tier, seed):
     H = Hist()
     sites = {}
     # (1) failing inputs at every depth inside histories, followed by valid continuations
-    reps = 6 if tier == "quick" else 60
+    reps = 6 if tier == "quick" else 200
     for rep in range(reps):
         for (w, h) in [(16, 16), (33, 17)]:
             ver = rep % 2
@@ -1431,7 +1444,7 @@ def c05(tier, seed):
                         H.decode(pg.intra_picture(rng, hdr, big=False) if t == "I" else pg.inter_picture(rng, hdr, pt=t, big=False))
     # (2) split delivery: every byte split point of an I and of a P picture
     splits = []
-    for rep in range(2 if tier == "quick" else 12):
+    for rep in range(2 if tier == "quick" else 60):
         w, h = rng.choice([(16, 16), (32, 16), (17, 9)])
         ver = rep % 2
         ipic = pg.intra_picture(rng, sor_hdr(rng, "I", 0, w, h, ver), big=False, shape="sparse")
@@ -1542,6 +1555,10 @@ def c04(tier, seed):
     gens = []
     r = run_gen_bfs(run, "MCDecoder", "MCDecoderGen3" if tier == "quick" else "MCDecoderGen4")
     gens += r
+    if tier == "thorough":      # and a sample of the 161 051 histories of length 5
+        g5 = run_gen_bfs(run, "MCDecoder", "MCDecoderGen5")
+        rng.shuffle(g5)
+        gens += g5[:40000]
     sim = run.generate_sim("MCDecoder", "MCDecoderSim", num=(20 if tier == "quick" else 300), depth=12,
                            seeds=[seed * 100 + k for k in range(8)])
     rng.shuffle(sim)
@@ -1604,8 +1621,15 @@ def replay(pid, path, seed):
         for c in cmds:
             c.pop("bytes", None)
         cmds = run.encode(cmds, nshards=1)
-    run.drive_and_validate(cmds, module, nshards=1, group=(lambda c: 0))
-    return run.finish(rule="replay of %s" % path)
+    ops = {c.get("op") for c in cmds}
+    also = [m for m, o in (("TraceParse", "parse"), ("TracePost", "post")) if o in ops and module == "TraceDecoder"]
+    if "threads" in ops:
+        run.drive_and_validate(cmds, module, nshards=1, post_fn=split_threads)
+    elif cmds and cmds[0].get("op") == "model":
+        log("model-level finding: re-run the property's check to reproduce (%s)" % json.dumps(cmds[0]))
+    else:
+        run.drive_and_validate(cmds, module, nshards=1, group=(lambda c: 0), also=also)
+    return run.finish(rule="replay of %s" % path, write_evidence=False)      # a replay does not replace the check's evidence
 
 
 REPLAY_MODULE = {"C07": "TraceYuv", "C08": "TraceYuv", "C09": "TraceDeblock", "C16": "TraceDeblock", "C14": "TraceBitReader", "C02": "TraceDecoder", "C03": "TraceDecoder", "C04": "TraceDecoder", "C05": "TraceDecoder", "C15": "TraceDecoder",
